@@ -615,6 +615,11 @@ class ConfigPlugin(Plugin):
                 if got != want:
                     diff = {k: (got.get(k), want.get(k)) for k in set(got) | set(want) if got.get(k) != want.get(k)}
                     mon.viol("C18", "resolution_changed_by_setup", {"entry": g, "differences(got,want)": repr(diff)[:400]})
+            for i, s_ in enumerate(cfg["simulation"]["sessions"]):
+                if i < len(live["simulation"]["sessions"]) and live["simulation"]["sessions"][i] != s_:
+                    ls = live["simulation"]["sessions"][i]
+                    diff = {k: (ls.get(k), s_.get(k)) for k in set(ls) | set(s_) if ls.get(k) != s_.get(k)}
+                    mon.viol("C18", "resolution_changed_by_setup", {"entry": f"session {i}", "differences(got,want)": repr(diff)[:400]})
             mon.probe("c18_resolved_again_after_setup")
 
     def setup_failed(self, mon, err):
